@@ -363,7 +363,6 @@ func TestC08_Tracker(t *testing.T) {
 	rapid.Check(t, runC08Tracker)
 }
 
-
 const kfTrackerRf1Initial = "C08:tracker-without-required-acks-starts-below-head"
 
 // TestKF_C08 re-confirms the listed finding with a scripted input.
